@@ -83,6 +83,9 @@ def min_len(n, seen=None):
     return 0
 
 
+AMBIG_RECORD_SIG = "roundtrip:union-record-branch-matched-by-ignoring-extra-keys"
+
+
 def finding_probes():
     """Fixed probe for the known finding: omitted bytes/fixed field with a default."""
     F = common.fa()
@@ -125,6 +128,21 @@ def finding_probes():
         rep2 = F.schemaless_reader(fo, u) != d
     except Exception:  # noqa
         rep2 = True
+    # the same lack of precedence between two RECORD branches: an earlier record that accepts the datum only
+    # because validation ignores keys it does not have wins over the later record the datum fits exactly
+    u2 = [{"type": "record", "name": "R0", "fields": [{"name": "f0", "type": {"type": "record", "name": "R1", "fields": []}}]},
+          {"type": "record", "name": "R2", "fields": [{"name": "f0", "type": {"type": "record", "name": "R3", "fields": [
+              {"name": "f0", "type": "null"}, {"name": "f1", "type": "null"}]}}]}]
+    d2 = {"f0": {"f0": None, "f1": None}}
+    try:
+        fo = io.BytesIO()
+        F.schemaless_writer(fo, u2, d2)
+        fo.seek(0)
+        rep4 = F.schemaless_reader(fo, u2) != d2
+    except Exception:  # noqa
+        rep4 = True
+    out.append((AMBIG_RECORD_SIG, rep4,
+                "[R0{f0: R1{}}, R2{f0: R3{f0: null, f1: null}}] with {'f0': {'f0': None, 'f1': None}} (an exact R2) must read back unchanged"))
     out.append(("roundtrip:union-map-branch-wins-over-matching-record", rep2,
                 "[R0{f0: map<null> default {}}, map<R0>] with {'f0': {'k0': None}} must read back unchanged"))
     return out
@@ -199,7 +217,13 @@ def sequential(F, ch, ctx, S, node, values, desc, wopts={}, ropts={}):
         try:
             F.schemaless_writer(sink, S, d, **wopts)
         except Exception as e:  # noqa
-            raise Violation("roundtrip", "conforming-datum-rejected", detail={"datum": jsonable(d), "exc": jsonable(e)}, scenario=desc)
+            sig = None
+            if (wopts.get("strict") or wopts.get("strict_allow_default")) and isinstance(e, ValueError) \
+                    and "more fields than the schema specifies" in str(e) and refavro.has_record_branch_ambiguity(node, d):
+                # known finding: the union branch was chosen by a validation that ignores extra keys, the strict
+                # writer then refuses those keys although a later branch fits the datum exactly
+                sig = AMBIG_RECORD_SIG
+            raise Violation("roundtrip", "conforming-datum-rejected", detail={"datum": jsonable(d), "exc": jsonable(e)}, sig=sig, scenario=desc)
         bounds.append(len(sink.getvalue()))
     if set(sink.ops()) - {"write", "flush", "seekable"}:
         raise Violation("stream-calls", "writer-used-other-calls", detail={"ops": sink.ops(), "forbidden": sink.forbidden}, scenario=desc)
